@@ -560,6 +560,9 @@ func c06StripPos(s string) string {
 // wait (and leak a spinning goroutine) again.
 var c06Hung sync.Map // key(string) -> *vc.Fail
 
+var c06NHung atomic.Int64
+var c06TooManyHangs sync.Once
+
 var c06Ballast []byte
 
 var c06SiteRepl = strings.NewReplacer("(", "", ")", "", "*", "")
@@ -591,6 +594,14 @@ func c06RunBatch(c *vc.Ctx, cases []c06Case) []*vc.Fail {
 				}
 				if h, ok := c06Hung.Load(c06CaseID(cases[i])); ok {
 					res[i] = h.(*vc.Fail)
+					pr.idx.Store(int64(i + 1))
+					continue
+				}
+				if c06NHung.Load() >= 16 && c.Replay == "" {
+					// every hang leaves a goroutine spinning for good; past
+					// this point the machine is too busy to judge anything
+					w.c.Count("skipped_after_16_hangs", 1)
+					c06TooManyHangs.Do(func() { c.CapNote("16 calls hung; the remaining inputs were not examined") })
 					pr.idx.Store(int64(i + 1))
 					continue
 				}
@@ -630,7 +641,9 @@ func c06RunBatch(c *vc.Ctx, cases []c06Case) []*vc.Fail {
 					Msg:   fmt.Sprintf("%s of %q does not return within %s (inputs of this size normally take microseconds)", where, t.Src, c06HangLimit),
 					Class: c06HangClass(where, t.Src),
 				}
-				c06Hung.Store(c06CaseID(t), fl)
+				if _, dup := c06Hung.LoadOrStore(c06CaseID(t), fl); !dup {
+					c06NHung.Add(1)
+				}
 				c.Count("hung_goroutines_abandoned", 1)
 				out[i] = fl
 				from = i + 1
